@@ -122,6 +122,7 @@ PW_THEOREMS = [
     "Cog.Sem.C11w.C11_pass_widening_partial", "Cog.Sem.C11w.C11_pass_widening_struct_partial",
     "Cog.Sem.C11w.C11_python_chain_exact", "Cog.Sem.C11w.C11_source_roundtrip_partial",
     "Cog.Sem.C11w.C11_source_object_roundtrip_partial", "Cog.Sem.C11w.C11_source_agree_partial",
+    "Cog.Sem.C11w.C11_pass_widening_counterexample",
     "Cog.Sem.Src.widen_py", "Cog.Sem.Src.widen_pyS", "Cog.Sem.Src.py_widen", "Cog.Sem.Src.pyDen_mono",
 ]
 
@@ -156,7 +157,7 @@ def pw_tie(c):
           "fragment_in_srcDen_and_pyDen_real": 0, "common_fragment_in_srcDen": 0,
           "common_fragment_in_srcDen_and_den_and_pyDen_real": 0, "bad_replies": 0}
     cases, notpy, case_line = {}, {}, {}
-    b_fail, m_fail, g_fail = [], [], []
+    b_fail, m_fail, g_fail, pinned = [], [], [], []
     for r in rows:
         if r[0] == "-":
             if r[1].startswith("case "):
@@ -171,6 +172,9 @@ def pw_tie(c):
             continue
         d = dict(kv.split("=", 1) for kv in m.split(" "))
         cid = r[0].split(" ")[4]
+        if r[1].endswith("doc=pinned"):
+            pinned.append((r[0], r[1], m, "valid=true" in r[1] and d["src"] == "true" and d["pyden"] == "false" and d["mpyden"] == "false"))
+            continue
         if cid not in cases:
             cases[cid] = (d["plainPyS"] == "true", d["plainS"] == "true")
             if d["plainPyS"] != "true":
@@ -211,6 +215,8 @@ def pw_tie(c):
     nboth = len([1 for v in cases.values() if v[0] and v[1]])
     c.oblige("c11-src: PlainPyS ∧ srcDen ⇒ pyDen on the REAL post-Python-chain IR (%d documents of %d cases in the fragment; common fragment with Go: %d documents of %d cases, all in `den` of the real Go IR too)"
              % (st["fragment_in_srcDen"], npy, st["common_fragment_in_srcDen"], nboth), not b_fail and not m_fail and not g_fail)
+    c.oblige("witness of C11_pass_widening_counterexample replays on the real front-end and passes (source-valid, in srcDen, not in pyDen of the real post-Python-chain IR nor of the model's)",
+             len(pinned) == 1 and all(p[3] for p in pinned), [(p[1], p[2]) for p in pinned] or "pinned row missing")
     c.oblige("c11-src is not vacuous (cases in the fragment, documents in srcDen)", npy >= 10 and st["fragment_in_srcDen"] >= 100,
              "cases in PlainPyS %d, documents in srcDen %d" % (npy, st["fragment_in_srcDen"]))
     c.count("c11-src", len(rows), [r[0] for r in rows if r[0].startswith("srcpy ") and r[0].count("(") >= 6],
